@@ -108,6 +108,9 @@ func handleZADD(params internal.HandlerFuncParams) ([]byte, error) {
 		options := params.Command[2:membersStartIndex]
 		for _, option := range options {
 			if slices.Contains([]string{"xx", "nx"}, strings.ToLower(option)) {
+				if up, ok := updatePolicy.(string); ok && !strings.EqualFold(up, option) {
+					return nil, errors.New("XX and NX flags are not compatible")
+				}
 				updatePolicy = option
 				// If option is "NX" and comparison is not nil, return an error
 				if strings.EqualFold(option, "NX") && comparison != nil {
@@ -116,6 +119,9 @@ func handleZADD(params internal.HandlerFuncParams) ([]byte, error) {
 				continue
 			}
 			if slices.Contains([]string{"gt", "lt"}, strings.ToLower(option)) {
+				if c, ok := comparison.(string); ok && !strings.EqualFold(c, option) {
+					return nil, errors.New("GT and LT flags are not compatible")
+				}
 				comparison = option
 				// If updatePolicy is "NX", return an error
 				up, _ := updatePolicy.(string)
